@@ -307,6 +307,10 @@ class CEvent:
         self.flag = True
         self.notified |= self.waiters      # waiters inside wait() are released
         self.waiters.clear()               # even if clear() follows
+        # a second scheduling point AFTER the signal: what the signalling
+        # thread does next (plain writes to shared state included) may be
+        # overtaken by the thread it has just released
+        self.s.yield_point('ev.set.done', self)
 
     def clear(self) -> None:
         self.s.yield_point('ev.clear', self)
